@@ -4,6 +4,7 @@
 From Coq Require Import List ZArith NArith String Bool Lia.
 From SCC Require Import Base.Sexp Lang.CoreSyn Sem.AxSem Sem.CoreSem Model.Backend Model.Uniquify Model.Focus
      Model.FocusCheck Proof.FocusKont Proof.FocusRel Proof.FocusMono Proof.FocusSim Proof.FocusStep.
+From SCC Require Import Model.FocusGuard.
 Import ListNotations.
 Open Scope list_scope.
 Open Scope N_scope.
